@@ -226,10 +226,11 @@ def run_impl(script, lines, rundir, timeout=3600, extra_env=None):
 # ------------------------------------------------------------------ findings / evidence
 
 def load_known(prop):
-    p = os.path.join(VERIF, 'known_findings.json')
-    if not os.path.exists(p):
-        return []
-    return [e for e in json.load(open(p))['findings'] if e['property'] == prop]
+    out = []
+    for p in (os.path.join(VERIF, 'known_findings.json'), os.environ.get('VERIF_EXTRA_KNOWN')):
+        if p and os.path.exists(p):
+            out += [e for e in json.load(open(p))['findings'] if e['property'] == prop]
+    return out
 
 
 def write_replay(prop, payload):
